@@ -315,6 +315,23 @@ def extra(tier, seed, stats):
                     out.append({"case": case, "detail": {"what": "boundary composition %s:%s reported as %d" % (p, f, b)},
                                 "kind": "mismatch"})
     stats.extra["enumerated_boundary_pairs"] = n
+    # call history, enumerated: a small input of one kind observed after one or three large inputs of the other kind (array
+    # and file calls in every combination): the decision is about the input at hand
+    rnd_h = random.Random(seed + 5)
+    big_p = gen.expand_random(rnd_h.randrange(2 ** 32), "DEFHIKLMPQRSVWY" + gen.AA, 6, 2000, 3000)
+    big_d = gen.expand_random(rnd_h.randrange(2 ** 32), gen.NUC, 6, 2000, 3000)
+    small = {"dna": ["ACGTTGCA", "ACGATGCA", "ACTTGCA"], "protein": ["DAAA", "AAAD", "CCDC"], "protein2": ["MKVLHHW", "MKILHW", "MKVHHW"]}
+    for want_key, prior in (("dna", big_p), ("protein", big_d), ("protein2", big_d)):
+        for hv in (["arr"], ["fasta"], ["arr", "fasta", "arr"], ["fasta", "arr", "fasta"]):
+            for via in ("arr", "fasta"):
+                seqs = small[want_key]
+                case = {"seqs": seqs, "via": via, "gapfrac": 0.0, "perm_seed": 1, "names": ["a", "b", "c"], "names2": ["x", "y", "z"], "gap_seed": 0,
+                        "history": [{"via": v, "seqs": prior} for v in hv], "nfiles": 1, "split_seed": 0}
+                r = check(case)
+                stats.record(case, r)
+                stats.classes["history_enumerated"] += 1
+                if r["status"] == "violation":
+                    out.append({"case": case, "detail": r["detail"], "kind": r.get("kind")})
     # letter statistics across files: a small first file and a larger second one of the same boundary composition (1/4
     # protein-only letter x, 3/4 nucleotide letter f), every x, both cases of x and of f: the votes of every letter in
     # either case must survive the merge of the files
